@@ -31,7 +31,7 @@ THEOREMS = ['C15_tokens_of_appended_options', 'C15_keywords_prefix',
             'C15_like_in_parse_all', 'C15_replace_like_card', 'C15_expand_all',
             'C15_like_equals_expanded', 'C15_like_mat_void',
             'C15_expansion_card', 'C15_like_expansion_card',
-            'C15_expansion_is_override',
+            'C15_expansion_is_override', 'C15_expansion_deck',
             'C15_importance_dictionary_linked',
             'C15_like_importance_zero_iff_linked']
 TRUSTED = [
